@@ -71,6 +71,14 @@ def entry_points(ctx, eff: Eff) -> list[tuple[FuncInfo, dict]]:
     # replace() with new=None only counts
     rep = repo.func("Element.replace")
     out.append((rep, {"new": None}))
+    # wrapping an existing node is read-only: every traversal builds wrappers through from_tag -> Class(tag_or_elem=node),
+    # i.e. runs the class's __init__ with _do_init False
+    for c in classes:
+        if eff.class_kind(c) != "ELEM":
+            continue
+        for f in c.methods.get("__init__", []):
+            if "__do_init__" in eff.flags_of(f) or True:
+                out.append((f, {"__do_init__": False}))
     return out
 
 
@@ -154,6 +162,10 @@ _EL = "src/odfdo/element.py"
 _T = "src/odfdo/table.py"
 _MD = "src/odfdo/mixin_md.py"
 SEEDS = [
+    Seed("wrapping a named range rewrites its attributes", "fault", _T,
+         "        crange = crange.replace(\".\", \"\")\n        self._set_range(crange)", "        crange = crange.replace(\".\", \"\")\n        self.set_range(crange)", "R15a"),
+    Seed("wrapping a header normalises its level", "fault", "src/odfdo/header.py",
+         "        super().__init__(**kwargs)\n        if self._do_init:\n            self.level = int(level)", "        super().__init__(**kwargs)\n        self.level = int(level)\n        if self._do_init:", "R15a"),
     Seed("Markdown export trims the live table again", "fault", _MD,
          "        table = self.clone\n        table.optimize_width()", "        table = self\n        table.optimize_width()", "R15a"),
     Seed("pretty serialisation indents the live tree", "fault", "src/odfdo/xmlpart.py",
